@@ -79,6 +79,8 @@ DEFAULT_PROFILE = dict(
     human_ckpt_rate=0.0,       # probability of an IDE-style human checkpoint before a human edit
     human_edit_on_pending_unreported=True,  # a person edits a file that carries pending INITIAL claims without any checkpoint (finding D3' shape)
     reindent_delete_combo=True,   # a re-indent sharing a checkpoint interval with other edits of the person (finding D13 shape)
+    intraline_cross_author=True,  # intra-line modification of a line last written by another author (finding D30 when off)
+    unreported_human_edit_before_rewrite=True,  # a person's edit not reported before reset/stash/switch/amend (finding D29 when off)
     ai_ws_touch_strict=True,      # a line whose whitespace an AI session changed must not be credited to that session (finding D24 when False)
     slow_path_strict_notes=True,  # assert every line listed by notes of the full rebase/cherry-pick replay (finding D16 when False: only added lines)
     reindent_committed_ai=True,   # whitespace-only edits of AI lines already contained in HEAD (finding D17)
@@ -182,6 +184,10 @@ class Scenario:
             return "rep@%d-%d+%d" % (a, b, k)
         if kind == "mod":
             cands = [i for i, l in enumerate(lines) if not self.ledger.is_decoy(l) and key(l)]
+            if not p.get("intraline_cross_author", True):
+                # finding D30: an intra-line change by another author can be re-derived wrongly by later content-based
+                # reconstruction (reset / squash / rebase replay); while it is open authors only modify their own lines
+                cands = [i for i in cands if self.ledger.expected(lines[i]) == author]
             if not cands:
                 return self.edit_lines(lines, author, ["ins"])
             a = self.rng.choice(cands)
@@ -413,6 +419,8 @@ class Scenario:
     # ------------------------------------------------------------------ global monitors (C03 + C05 + no panic)
     def check_notes(self, where, repo=None, nr=None):
         """Every note in refs/notes/ai: one per object, parses, invariants, and no AI claim contradicting the ledger."""
+        if nr is None and repo is None:
+            self.w.rec.append(dict(k="check", what="notes", where=where))
         nr = nr or self.nr
         mapping = nr.mapping()
         for obj, ents in mapping.items():
@@ -507,6 +515,8 @@ class Scenario:
     def check_blame_tip(self, where, repo=None, complete=True, files=None, rule="C01"):
         """Blame of every file at HEAD (only files whose worktree content equals HEAD)."""
         repo_ = repo or self.w.repo
+        if repo is None:
+            self.w.rec.append(dict(k="check", what="blame_tip", where=where, complete=complete, files=files, rule=rule))
         head = self.head(repo)
         if complete and self.exempt_ws_committed and repo is None:
             self.scan_ws_changes()
@@ -588,6 +598,7 @@ class Scenario:
     def check_commit_exact(self, commit, where, rule="C01", parent=None, note=None, mapping=None, complete=True):
         """The note of `commit` lists exactly the unambiguous AI lines it added, under the right session.
         "Added" is git's own answer (diff -U0, neutral config); "not added" needs git's diff AND content keys to agree."""
+        self.w.rec.append(dict(k="check", what="commit_exact", commit=commit, where=where, rule=rule, parent=parent, complete=complete))
         if note is None:
             try:
                 note = self.nr.note_for(commit, mapping)
@@ -631,9 +642,20 @@ class Scenario:
     def signature(self):
         return "|".join(self.ops)
 
+    def recording(self):
+        """Concrete, generator-independent record of this scenario (actions, checks, ledger)."""
+        return dict(world=self.w.init_kwargs, profile=self.profile, sessions=self.sessions, rec=self.w.rec,
+                    ledger=dict(author=self.ledger.author, introduced={k: sorted(v) for k, v in self.ledger.introduced.items()},
+                                decoys=sorted(self.ledger.decoys), optional=sorted(self.ledger.optional),
+                                ws_touch={k: sorted(v) for k, v in self.ledger.ws_touch.items()}),
+                    ws_keys=sorted(self.ws_keys), styles={f: [st.eol, st.final_nl] for f, st in self.styles.items()})
+
     def finish(self):
-        return dict(index=self.index, viol=self.viol, stats=dict(self.stats), sig=self.signature(), log=self.log,
-                    inconclusive=self.inconclusive)
+        r = dict(index=self.index, viol=self.viol, stats=dict(self.stats), sig=self.signature(), log=self.log,
+                 inconclusive=self.inconclusive)
+        if self.viol:
+            r["recording"] = self.recording()
+        return r
 
     def destroy(self):
         self.w.destroy()
